@@ -14,6 +14,13 @@ const JV *JV::get(const std::string &k) const {
 	return nullptr;
 }
 
+bool jv_has_nul(const JV &v) {
+	if (v.t == JV::Str) return v.s.find('\0') != std::string::npos;
+	if (v.t == JV::Arr) { for (auto &x : v.a) if (jv_has_nul(x)) return true; return false; }
+	if (v.t == JV::Obj) { for (auto &kv : v.o) if (kv.first.find('\0') != std::string::npos || jv_has_nul(kv.second)) return true; return false; }
+	return false;
+}
+
 std::string json_escape(const std::string &s) {
 	std::string out;
 	out.reserve(s.size() + 2);
